@@ -662,7 +662,9 @@ fn ident_collisions(rep: &mut Report, pending: &mut Vec<Pending>) {
     let mut names: Vec<&str> = TYPE_NAMES.to_vec();
     names.extend_from_slice(&["v", "size", "has", "map", "tick", "now"]);
     // usage forms of the identifier `N`; `ok(N)` is what each yields when N resolves to R
-    let forms: [&str; 7] = ["N", "[N][0]", "[1].map(x, N)[0]", "has(N)", "coalesce(N, 3)", "N == N", "{'k': N}.k"];
+    // (also as the bare argument of calls that run at run time: a user function, built-ins, a format string — the
+    // argument is a block of its own, resolved by the same rule)
+    let forms: [&str; 12] = ["N", "[N][0]", "[1].map(x, N)[0]", "has(N)", "coalesce(N, 3)", "N == N", "{'k': N}.k", "idf(N)", "[idf(N)][0] == N", "f'{N}'", "max(N, N)", "[7].idf(N)"];
     for name in names.iter() {
         let is_type = TYPE_NAMES.contains(name);
         for mask in 0..8u32 {
@@ -683,6 +685,8 @@ fn ident_collisions(rep: &mut Report, pending: &mut Vec<Pending>) {
                     if func {
                         s.users.push((name.to_string(), UserFn::Const(CelValue::Int(99))));
                     }
+                    // a caller's function that returns its first argument
+                    s.users.push(("idf".to_string(), UserFn::Arg0));
                     s
                 };
                 let s = mk(as_param, as_prog, as_func);
